@@ -6,7 +6,7 @@ CONSTANTS
   AllowReg = FALSE
   CopyOpts = TRUE
   TightCap = TRUE
-  CopyArgs = FALSE
+  CopyArgs = TRUE
   HtmlDep = FALSE
 VIEW View
 INVARIANTS Deterministic SharedReadOnly NoBlocking LockSane
